@@ -91,14 +91,14 @@ static void issue(Req *r) {
   Sock *s = K().get(G->fd);
   // earlier cancelled requests: nothing may have touched the descriptor since their cancel
   for (auto &q : G->reqs)
-    if (q.get() != r && q->cancelled) {
+    if (q.get() != r && q->cancelled && q->is_write == r->is_write) {
       check_quiet_after_cancel(q.get());
       q->calls_at_cancel = -1;
     }
   r->issued = true;
-  r->start_pos = G->is_write ? s->sent.size() : s->delivered.size();
+  r->start_pos = r->is_write ? s->sent.size() : s->delivered.size();
   r->buf = (uint8_t *)malloc(r->buflen);  // exact size: ASan sees any access outside
-  if (G->is_write) {
+  if (r->is_write) {
     std::string d = prbytes(r->seed, r->buflen);
     memcpy(r->buf, d.data(), r->buflen);
     r->cookie = shim_network_write(G->fd, r->buf, r->buflen, r->min, rw_cb, r);
@@ -120,20 +120,20 @@ static int cancel_cb(void *c) {
   Req *r = (Req *)c;
   r->timer = nullptr;
   if (r->done || r->cancelled) return 0;
-  if (G->is_write)
+  if (r->is_write)
     shim_network_write_cancel(r->cookie);
   else
     shim_network_read_cancel(r->cookie);
   r->cancelled = true;
   r->done = true;
   Sock *s = K().get(G->fd);
-  r->calls_at_cancel = G->is_write ? s->send_calls : s->recv_calls;
+  r->calls_at_cancel = r->is_write ? s->send_calls : s->recv_calls;
   X->cls.insert(r->cancel_at == 0 ? "cancel-before-first-poll" : "cancel-midway");
   return 0;
 }
 static void check_quiet_after_cancel(Req *r) {
   Sock *s = K().get(G->fd);
-  long calls = G->is_write ? s->send_calls : s->recv_calls;
+  long calls = r->is_write ? s->send_calls : s->recv_calls;
   if (r->cancelled && r->calls_at_cancel >= 0 && calls != r->calls_at_cancel)
     X->fail("io-after-cancel", "recv/send was called on the descriptor after the request was cancelled and before a new request was issued");
 }
@@ -156,7 +156,7 @@ static int rw_cb(void *c, ssize_t n) {
   }
   Sock *s = K().get(G->fd);
   char m[300];
-  if (!G->is_write) {
+  if (!r->is_write) {
     size_t got = s->delivered.size() - r->start_pos;
     bool eof = s->in_end && !s->in.empty() && s->in.front().t == IN_EOF;
     bool err = s->in_end && !s->in.empty() && s->in.front().t == IN_ERR;
@@ -198,7 +198,7 @@ static int rw_cb(void *c, ssize_t n) {
       X->fail("write-bad-n", "write callback with n < -1");
   }
   // chain the next request from inside the callback if asked to
-  if (!X->failed && G->next < G->reqs.size() && G->reqs[G->next]->chain_in_cb) {
+  if (!X->failed && G->next < G->reqs.size() && G->reqs[G->next]->chain_in_cb && G->reqs[G->next]->is_write == r->is_write) {
     X->cls.insert("back-to-back-from-callback");
     Req *nr = G->reqs[G->next++].get();
     issue(nr);
@@ -206,7 +206,8 @@ static int rw_cb(void *c, ssize_t n) {
   return 0;
 }
 
-static Outcome run_rw(const Case &c, bool is_write) {
+static Outcome run_rw(const Case &c, int mode) {
+  bool is_write = mode == 1;
   Outcome o;
   Ctx x;
   x.o = &o;
@@ -220,19 +221,19 @@ static Outcome run_rw(const Case &c, bool is_write) {
   int kinds = 0;
   size_t nin = 0;
   for (auto &op : c) {
-    if (op.k == "in" && !is_write && nin++ < 400) {
+    if (op.k == "in" && mode != 1 && nin++ < 400) {
       InItem it = mk_in(op);
       if (it.t == IN_DATA) g.stream += it.data;
       K().push_in(g.fd, it);
       kinds |= 1 << it.t;
-    } else if (op.k == "out" && is_write && nin++ < 400) {
+    } else if (op.k == "out" && mode != 0 && nin++ < 400) {
       OutItem it = mk_out(op);
       K().push_out(g.fd, it);
       kinds |= 1 << it.t;
     } else if (op.k == "req" && g.reqs.size() < 40) {
       auto A = [&](size_t i) -> int64_t { return i < op.a.size() ? op.a[i] : 0; };
       std::unique_ptr<Req> r(new Req);
-      r->is_write = is_write;
+      r->is_write = mode == 2 ? (A(5) & 1) : is_write;
       r->buflen = (size_t)std::min<int64_t>(std::max<int64_t>(A(0), 1), 400000);
       r->min = (size_t)std::min<int64_t>(std::max<int64_t>(A(1), 0), (int64_t)r->buflen);
       r->cancel_at = std::min<int64_t>(std::max<int64_t>(A(2), -1), 20000000);
@@ -244,17 +245,32 @@ static Outcome run_rw(const Case &c, bool is_write) {
   }
   long answers = 0;
   while (g.next < g.reqs.size() && !x.failed) {
-    Req *r = g.reqs[g.next++].get();
-    // a finished stream cannot serve further requests meaningfully, but they must still complete
-    issue(r);
-    Req *last = nullptr;
+    Req *r = g.reqs[g.next].get();
+    // one outstanding request per direction: wait until r's direction is idle, then issue it; in duplex
+    // mode a read and a write are outstanding at the same time
+    bool last = g.next + 1 == g.reqs.size();
+    bool busy = false;
+    for (size_t i = 0; i < g.next; i++)
+      if (!g.reqs[i]->done && g.reqs[i]->is_write == r->is_write) busy = true;
+    if (!busy) {
+      g.next++;
+      issue(r);
+      if (mode == 2 && !last) {
+        bool otherbusy = false;
+        for (size_t i = 0; i < g.next; i++)
+          if (!g.reqs[i]->done && g.reqs[i]->is_write != r->is_write) otherbusy = true;
+        if (otherbusy) x.cls.insert("read-and-write-outstanding-together");
+        if (g.reqs[g.next]->is_write != r->is_write) continue;  // issue the other direction right away
+      }
+    }
+    bool want_dir = g.next < g.reqs.size() ? g.reqs[g.next]->is_write : false;
+    bool finalwait = g.next >= g.reqs.size() || mode != 2;
     int rc = run_loop_until([&] {
-      // done when every issued request is done
+      // done when every issued request is done (or, in duplex mode, when the direction needed next is idle)
       for (size_t i = 0; i < g.next; i++)
-        if (!g.reqs[i]->done) return false;
+        if (!g.reqs[i]->done && (finalwait || g.next >= g.reqs.size() || g.reqs[i]->is_write == want_dir)) return false;
       return true;
     });
-    (void)last;
     if (x.failed) break;
     if (rc == 1000) {
       // peer silent forever: the application gives up -> cancel, which must be clean
@@ -288,7 +304,7 @@ static Outcome run_rw(const Case &c, bool is_write) {
     }
   }
   Sock *s = K().get(g.fd);
-  answers = is_write ? s->send_calls : s->recv_calls;
+  answers = mode == 2 ? s->send_calls + s->recv_calls : is_write ? s->send_calls : s->recv_calls;
   for (auto &r : g.reqs) {
     if (!r->issued) continue;
     if (r->cancelled && r->callbacks) x.fail("callback-after-cancel", "cancelled request called back");
@@ -301,15 +317,16 @@ static Outcome run_rw(const Case &c, bool is_write) {
   o.nontrivial = answers >= 3 && nk >= 2;
   for (auto &sx : x.cls) o.cls(sx);
   if (g.reqs.size() >= 2) o.cls("multi-request");
-  o.counters[is_write ? "send_calls" : "recv_calls"] = (uint64_t)answers;
+  o.counters[mode == 2 ? "duplex_io_calls" : is_write ? "send_calls" : "recv_calls"] = (uint64_t)answers;
   o.counters["polls"] = (uint64_t)K().polls;
   G = nullptr;
   X = nullptr;
   return o;
 }
 
-static rc::Gen<Case> gen_rw(bool is_write, int tier) {
-  return rc::gen::exec([is_write, tier]() {
+static rc::Gen<Case> gen_rw(int mode, int tier) {
+  return rc::gen::exec([mode, tier]() {
+    bool is_write = mode == 1;
     Case c;
     size_t big = tier ? 300000 : 20000;
     auto lens = rc::gen::weightedOneOf<int64_t>({{5, range<int64_t>(1, 40)},
@@ -322,14 +339,15 @@ static rc::Gen<Case> gen_rw(bool is_write, int tier) {
       int64_t bl = *lens;
       int64_t mn = *rc::gen::weightedOneOf<int64_t>({{2, rc::gen::just<int64_t>(0)}, {2, rc::gen::just<int64_t>(1)}, {3, rc::gen::just(bl)}, {3, range<int64_t>(0, bl)}});
       int64_t cancel = *rc::gen::weightedOneOf<int64_t>({{10, rc::gen::just<int64_t>(-1)}, {1, rc::gen::just<int64_t>(0)}, {3, rc::gen::elementOf(std::vector<int64_t>{1, 500, 1000, 1500, 3000, 10000, 100000})}});
-      c.push_back(Op("req", {bl, mn, cancel, *range<int>(0, 1), *rc::gen::arbitrary<int>()}));
+      c.push_back(Op("req", {bl, mn, cancel, *range<int>(0, 1), *rc::gen::arbitrary<int>(), *range<int>(0, 1)}));
       total += bl;
     }
     // kernel script: enough material for the requests, fragmented
     int nitems = *range<int>(0, 14);
     int64_t produced = 0;
+    if (mode == 2) nitems *= 2;
     for (int i = 0; i < nitems; i++) {
-      if (!is_write) {
+      if (mode == 0 || (mode == 2 && (i & 1))) {
         int t = *rc::gen::weightedElement<int>({{8, IN_DATA}, {3, IN_SPUR}, {2, IN_EINTR}});
         int64_t delay = *rc::gen::weightedOneOf<int64_t>({{3, rc::gen::just<int64_t>(0)}, {2, rc::gen::elementOf(std::vector<int64_t>{1, 999, 1000, 1001, 2000, 50000})}});
         int64_t len = *rc::gen::weightedOneOf<int64_t>({{4, range<int64_t>(1, 20)}, {2, range<int64_t>(1, 3000)}, {1, range<int64_t>(1, std::max<int64_t>(1, total))}});
@@ -344,7 +362,8 @@ static rc::Gen<Case> gen_rw(bool is_write, int tier) {
     }
     // ending: EOF / hard error / silence (reads); hard error / accept-everything (writes)
     int end = *rc::gen::weightedElement<int>({{4, 0}, {3, 1}, {2, 2}, {3, 3}});
-    if (!is_write) {
+    if (mode == 2 && *range<int>(0, 3) == 0) c.push_back(Op("out", {OUT_ERR, 1, 0, *range<int>(0, 4)}));
+    if (mode != 1) {
       if (end == 3 && produced < total) c.push_back(Op("in", {IN_DATA, *range<int>(0, 1) * 1000, 0, 0, *rc::gen::arbitrary<int>(), total - produced + *range<int>(0, 10)}));
       if (end == 0 || end == 3) c.push_back(Op("in", {IN_EOF, *rc::gen::elementOf(std::vector<int64_t>{0, 0, 1000, 2500}), 0, *range<int>(0, 1), 0, 0}));
       if (end == 1) c.push_back(Op("in", {IN_ERR, *rc::gen::elementOf(std::vector<int64_t>{0, 0, 1000, 2500}), *range<int>(0, 4), *range<int>(0, 1), 0, 0}));
@@ -684,14 +703,14 @@ int main(int argc, char **argv) {
         "cancellations at generated virtual instants (before the first poll, between fragments, when the peer is silent). Oracle: exactly one callback "
         "per request; n in [min,buflen] with the buffer equal to the next n stream bytes and n equal to what the kernel delivered; 0 iff EOF answered "
         "before min; -1 iff hard error; cancel: no callback, no recv afterwards, new request accepted. Non-trivial: >=3 kernel answers of >=2 kinds",
-        [](int t) { return gen_rw(false, t); }, [](const Case &c) { return run_rw(c, false); }};
+        [](int t) { return gen_rw(0, t); }, [](const Case &c) { return run_rw(c, 0); }};
   r.fork = true;
   r.timeout_s = 10;
   Sub w{"write",
         "one simulated socket; outbound script of ACCEPT<=n / EAGAIN / EINTR / BLOCK(delay) items optionally ended by a hard error (EPIPE raises SIGPIPE "
         "unless MSG_NOSIGNAL is passed); chain of write requests as for reads. Oracle: one callback; n in [min,buflen], bytes accepted by the kernel == "
         "first n bytes of the buffer in order; -1 iff hard error; cancel semantics. Non-trivial: >=3 kernel answers of >=2 kinds",
-        [](int t) { return gen_rw(true, t); }, [](const Case &c) { return run_rw(c, true); }};
+        [](int t) { return gen_rw(1, t); }, [](const Case &c) { return run_rw(c, 1); }};
   w.fork = true;
   w.timeout_s = 10;
   Sub cn{"connect",
@@ -709,8 +728,15 @@ int main(int argc, char **argv) {
          gen_accept, run_accept};
   ac.fork = true;
   ac.timeout_s = 10;
+  Sub dx{"duplex",
+         "one descriptor with a read chain and a write chain outstanding at the same time (read and write registrations share one poll slot), each with its own "
+         "kernel script, cancels and back-to-back requests; oracles of 'read' and 'write' per direction. Non-trivial: >=3 kernel answers of >=2 kinds",
+         [](int t) { return gen_rw(2, t); }, [](const Case &c) { return run_rw(c, 2); }};
+  dx.fork = true;
+  dx.timeout_s = 10;
   subs.push_back(r);
   subs.push_back(w);
+  subs.push_back(dx);
   subs.push_back(cn);
   subs.push_back(ac);
   return pbt_main(argc, argv, subs);
